@@ -723,6 +723,28 @@ func ruleEqualCoversBehaviour(p *Program, r *Report) {
 			}
 		}
 		name := shortT(n)
+		// Hash must not look at more than Equal does: a field only Hash reads makes equal values hash differently
+		if hm := p.MethodOf(t, "Hash"); hm != nil && !isPanicOnly(hm) {
+			hf := map[string]bool{}
+			fieldsRead(p, hm, n, map[*ssa.Function]bool{}, hf, 0)
+			var extra []string
+			for f := range hf {
+				if eq[f] || cache[TypeName(n)+"."+f] {
+					continue
+				}
+				if _, isDerived := derived[name+"."+f]; isDerived {
+					continue
+				}
+				extra = append(extra, f)
+			}
+			sort.Strings(extra)
+			if len(extra) == 0 {
+				r.OK("hash-within-equal@"+name, fmt.Sprintf("Hash reads {%s} ⊆ Equal reads {%s}", strings.Join(SortedKeys(hf), ","), strings.Join(SortedKeys(eq), ",")), hm.Pos())
+			}
+			for _, f := range extra {
+				r.Viol("hash-within-equal@"+name+"."+f, fmt.Sprintf("%s.Hash reads field %s, which %s.Equal never looks at: two values Equal identifies can hash differently, so hashed containers keep both and lookups miss", name, f, name), hm.Pos())
+			}
+		}
 		var miss []string
 		for f := range obs {
 			if eq[f] {
